@@ -48,6 +48,8 @@ NPQ_KERNELS = [
          self_attrs=[("_CR", "VQ"), ("_pop_size", "N"), ("_t_CR", "S1")]),
     # minmax_scale (C11): module-level function of utils/transformations.py
     dict(name="Select_minmax_scale", file=T, cls=None, func="minmax_scale", params=[("data", "VQ")], ret="VQ"),
+    # coefficient_determination (C19), floats read as rationals; the literal 1e-10 is read as 1/10^10
+    dict(name="Metrics_r2", file="utils/_metrics.py", cls=None, func="coefficient_determination", params=[("y_true", "VQ"), ("y_predict", "VQ")], ret="S1"),
     # the mean squared error inside root_mean_square_error (C19): everything before the square root, which must still be taken of it
     dict(name="Metrics_mse", file="utils/_metrics.py", cls=None, func="root_mean_square_error", params=[("y_true", "VQ"), ("y_predict", "VQ")], ret="S1",
          until="rmse = np.sqrt(mean_squared_error)", returns="mean_squared_error"),
@@ -343,6 +345,10 @@ class TrQ:
     def lit(e):
         if isinstance(e, ast.Constant) and isinstance(e.value, int) and not isinstance(e.value, bool):
             return f"({e.value} : Rat)"
+        if isinstance(e, ast.Constant) and isinstance(e.value, float):
+            from fractions import Fraction
+            q = Fraction(ast.unparse(e))        # the decimal text of the literal, not its binary rounding
+            return f"(({q.numerator} : Rat) / {q.denominator})"
         return None
 
     def E(self, e):
@@ -389,9 +395,9 @@ class TrQ:
             if op is None:
                 raise NotRecognised("operator in " + ast.unparse(e))
             (a, ka), (b, kb) = self.E(e.left), self.E(e.right)
-            if op == "/" and not (ka == "VQ" and kb == "S1"):
-                raise NotRecognised("division other than vector / scalar")
-            if ka == "S1" and kb == "S1":
+            if op == "/" and not (ka in ("VQ", "S1") and kb == "S1"):
+                raise NotRecognised("division other than by a scalar")
+            if ka in ("S", "S1") and kb in ("S", "S1") and "S1" in (ka, kb):
                 return f"({a} {op} {b})", "S1"
             if (ka, kb) == ("VQ", "VQ"):
                 return self.bind(f"NpQ.vzip (fun a b => a {op} b) {a} {b}"), "VQ"
@@ -443,6 +449,14 @@ class TrQ:
                 return f"(draw {self.draws - 1} {n})", "VQ"
             if is_np(f, "sum") and len(e.args) == 1 and not kw and isinstance(e.args[0], ast.Name) and self.env.get(e.args[0].id) == "MB":
                 return f"(NpQ.countTrue {e.args[0].id})", "N"
+            if (is_np(f, "max") or is_np(f, "min")) and len(e.args) == 1 and not kw:
+                x, k = self.E(e.args[0])
+                if k != "VQ":
+                    raise NotRecognised("max/min of a non-vector")
+                return self.bind(f"NpQ.v{f.attr} {x}"), "S1"
+            if is_np(f, "sum") and len(e.args) == 1 and not kw and self._kind(e.args[0]) == "VQ":
+                x, k = self.E(e.args[0])
+                return f"(NpQ.vsum {x})", "S1"
             if is_np(f, "mean") and len(e.args) == 1 and not kw:
                 x, k = self.E(e.args[0])
                 if k != "VQ":
@@ -460,6 +474,16 @@ class TrQ:
                     if k in ("Q", "QT"):
                         return f"(NpQ.map {self.cfg['cos2pi']} {x})", k
         raise NotRecognised("expression " + ast.unparse(e)[:60])
+
+    def _kind(self, e):
+        """kind of an expression without emitting anything"""
+        saved = (list(self.lines), self.n, self.draws)
+        try:
+            return self.E(e)[1]
+        except NotRecognised:
+            return None
+        finally:
+            self.lines, self.n, self.draws = saved
 
     def render(self):
         cfg = self.cfg
@@ -487,6 +511,20 @@ class TrQ:
                     raise NotRecognised("masked assignment of a non-vector")
                 t = self.bind(f"NpQ.maskScatter {v} {m} {x}")
                 self.lines.append(f"  let {v} := {t}")
+                continue
+            # if a == b or c == d: v = <literal>     (no else: v keeps its value otherwise)
+            if isinstance(st, ast.If) and not st.orelse and len(st.body) == 1 and isinstance(st.test, ast.BoolOp) and isinstance(st.test.op, ast.Or) \
+                    and all(isinstance(c, ast.Compare) and len(c.ops) == 1 and isinstance(c.ops[0], ast.Eq) for c in st.test.values) \
+                    and isinstance(st.body[0], ast.Assign) and len(st.body[0].targets) == 1 and isinstance(st.body[0].targets[0], ast.Name) \
+                    and self.env.get(st.body[0].targets[0].id) == "S1" and self.lit(st.body[0].value):
+                conds = []
+                for c in st.test.values:
+                    (a, ka), (b, kb) = self.E(c.left), self.E(c.comparators[0])
+                    if ka not in ("S", "S1") or kb not in ("S", "S1"):
+                        raise NotRecognised("condition kinds")
+                    conds.append(f"{a} = {b}")
+                v = st.body[0].targets[0].id
+                self.lines.append(f"  let {v} := if " + " ∨ ".join(conds) + f" then {self.lit(st.body[0].value)} else {v}")
                 continue
             # if a == b: v = E1  else: v = E2   (two scalars compared; both branches assign the same name; neither branch can fail)
             if isinstance(st, ast.If) and len(st.body) == 1 and len(st.orelse) == 1 and isinstance(st.test, ast.Compare) and len(st.test.ops) == 1 \
